@@ -18,6 +18,8 @@
 // a passed proposal, inside a block (WithDeliverCtx); the vote itself is not replayed.
 // `fund` (mint to an account) and `gift` (keeper-level SendCoins to the escrow account,
 // which user MsgSends cannot do because the module address is blocked) are test set-up.
+// Op `wasm` (c18_contract_test.go): a CONTRACT dispatches messages as CosmosMsg::Any, bare or inside authz.MsgExec,
+// through the application's one wasm messenger (no ante chain on that route).
 package harness
 
 import (
@@ -33,6 +35,7 @@ import (
 	sdkmath "cosmossdk.io/math"
 	"cosmossdk.io/store/prefix"
 	"cosmossdk.io/x/feegrant"
+	wasmkeeper "github.com/CosmWasm/wasmd/x/wasm/keeper"
 	sdk "github.com/cosmos/cosmos-sdk/types"
 	authtypes "github.com/cosmos/cosmos-sdk/x/auth/types"
 	vestingtypes "github.com/cosmos/cosmos-sdk/x/auth/vesting/types"
@@ -120,6 +123,9 @@ type c18Env struct {
 	blocks  int64
 	sink    *FAAccount
 	caseNo  int
+	// the application's wasm messenger (Paloma's router around wasmd's handler): ONE value per application, like
+	// on a node — every contract dispatch of every case on this application goes through it (c18_contract_test.go)
+	wasm wasmkeeper.Messenger
 }
 
 type c18Case struct {
@@ -158,6 +164,7 @@ func (e *c18Env) newApp() {
 		e.compass[i] = string(ci.SmartContractUniqueID)
 	}
 	e.sink = e.fa.User(0)
+	e.wasm = e.fa.App().VerifWasmMessenger()
 	e.onApp, e.ethH, e.blocks = 0, 100, e.fa.Height()
 	// the escrow module account is created lazily; create it before any baseline is taken
 	if _, err := e.fa.WithDeliverCtx(func(ctx sdk.Context) error {
@@ -462,8 +469,9 @@ type c18Op struct {
 	contract        int      // sale: code of the claim's smart_contract_address string
 	pairs           [][2]int // setcontracts: (chain, contract string code) records in proposal order
 	list            []int
-	msgs            []c18Op // tx: the messages of ONE transaction, in order (see c18_tx_test.go)
-	wrap            int     // message of a tx: number of authz.MsgExec wrappers (grantee = the declared signer) around it
+	msgs            []c18Op // tx / wasm: the messages of ONE transaction / dispatch, in order (see c18_tx_test.go)
+	wrap            int     // message of a tx: number of authz.MsgExec wrappers (grantee = the declared signer) around it; wasm: around the message list
+	grantee         int     // wasm: the grantee of the MsgExec wrappers (signer = the dispatching contract)
 }
 
 func (c *c18Case) at(t int64) { c.e.fa.NextTime = time.Unix(t, 0).UTC() }
@@ -646,6 +654,8 @@ func (c *c18Case) exec(op c18Op) (string, string) {
 		return line, c18Res(fa.DeliverTx(c.accts[op.signer], msg))
 	case "tx":
 		return c.execTx(op)
+	case "wasm":
+		return c.execWasm(op)
 	}
 	c.e.t.Fatalf("unknown op %q", op.kind)
 	return "", ""
@@ -724,7 +734,7 @@ func (c *c18Case) do(op c18Op) string {
 	if op.kind == "activate" && res == "ok" {
 		c.probes(op.creator, c.prev)
 	}
-	if op.kind == "tx" && res == "ok" {
+	if op.carries() && res == "ok" {
 		for _, m := range op.msgs {
 			if m.kind == "activate" {
 				c.probes(m.creator, c.prev)
@@ -831,7 +841,7 @@ func (c *c18Case) monitors(op c18Op, line, res string, prev, cur *c18Obs) {
 			c.hit("activate_once", fmt.Sprintf("vesting account %d changed %s -> %s by `%s`", i, prev.acc[i], cur.acc[i], line))
 		}
 		if prev.acc[i].kind != 'v' && cur.acc[i].kind != prev.acc[i].kind && cur.acc[i].kind != 'b' {
-			if !(res == "ok" && cur.acc[i].kind == 'v' && (op.kind == "activate" && op.creator == i || op.kind == "tx" && op.txActivates(i))) {
+			if !(res == "ok" && cur.acc[i].kind == 'v' && (op.kind == "activate" && op.creator == i || op.carries() && op.txActivates(i))) {
 				c.hit("activation_exact", fmt.Sprintf("account %d became %s by `%s`", i, cur.acc[i], line))
 			}
 		}
@@ -843,7 +853,7 @@ func (c *c18Case) monitors(op c18Op, line, res string, prev, cur *c18Obs) {
 		}
 	}
 	for k := range cur.lics {
-		if _, had := prev.lics[k]; !had && !(res == "ok" && ((op.kind == "create" || op.kind == "sale") && op.clientKey() == k || op.kind == "tx" && op.txCreates(k))) {
+		if _, had := prev.lics[k]; !had && !(res == "ok" && ((op.kind == "create" || op.kind == "sale") && op.clientKey() == k || op.carries() && op.txCreates(k))) {
 			c.hit("create_requires_fresh", fmt.Sprintf("licence for %s appeared by `%s`", k, line))
 		}
 		if cur.acc[k.a].kind != 'b' {
@@ -856,6 +866,8 @@ func (c *c18Case) monitors(op c18Op, line, res string, prev, cur *c18Obs) {
 	switch op.kind {
 	case "tx":
 		c.txMonitors(op, line, prev, cur)
+	case "wasm":
+		c.wasmMonitors(op, line, prev, cur)
 	case "create", "sale":
 		c.nLic++
 		amt, denom, months, payer := op.amt, op.denom, op.months, op.creator
@@ -1416,6 +1428,11 @@ func (c *c18Case) genConfig() c18Op {
 }
 
 func (c *c18Case) genOp() c18Op {
+	if c.rnd(100) < 8 {
+		if op, ok := c.genWasm(); ok {
+			return op
+		}
+	}
 	if c.rnd(100) < 13 {
 		return c.genTx()
 	}
@@ -1724,6 +1741,9 @@ func (e *c18Env) runCase() {
 	}
 	if c.rnd(5) == 0 {
 		c.directedTxOwnership()
+	}
+	if c.rnd(4) == 0 {
+		c.directedWasmOwnership()
 	}
 	for i := 0; i < steps; i++ {
 		op := c.genOp()
